@@ -127,8 +127,44 @@ def nested(d, leaf):
   return core.coq_list(['(%s, %s)' % (Z(k), leaf(v)) for k, v in sorted(d.items())])
 
 
+def rel_parts(r, refs, looks):
+  if r[0] == 'Ref':
+    refs.add(r[1])
+  elif r[0] == 'Look':
+    looks.add((r[1], r[2]))
+  elif r[0] == 'Comp':
+    rel_parts(r[1], refs, looks)
+    rel_parts(r[2], refs, looks)
+
+
 def case_lit(ex, inv, lkrows, lkkeys, m0, n, rows, incl, expected):
-  edges = core.coq_list(['(%s, %s, %s)' % (Z(o), Z(i), rel_lit(r)) for (o, i, r, _e) in ex.edges])
+  """The case restricted to the part of the graph the walk can reach from n (edges are followed from
+  in_node to out_node; clear_dependencies only removes edges INTO nodes... of the cleared out_node, which are
+  visited only if their in_node is reached).  Outside that part the real result must equal the initial map."""
+  reach, stack = {n}, [n]
+  succ = {}
+  for (o, i, _r, _e) in ex.edges:
+    succ.setdefault(i, []).append(o)
+  while stack:
+    x = stack.pop()
+    for y in succ.get(x, ()):
+      if y not in reach:
+        reach.add(y)
+        stack.append(y)
+  for k, v in expected.items():
+    if k not in reach and v != m0.get(k, []):
+      raise core.TieBroken('Graph.invalidate_deps changed node %r, which is not reachable from the start node' % (k,))
+  sub = [(o, i, r) for (o, i, r, _e) in ex.edges if i in reach]
+  refs, looks = set(), set()
+  for (_o, _i, r) in sub:
+    rel_parts(r, refs, looks)
+  inv = {c: d for c, d in inv.items() if c in refs}
+  lkrows = {m: {nn: ps for nn, ps in d.items() if (m, nn) in looks} for m, d in lkrows.items()
+            if any(mm == m for (mm, _n) in looks)}
+  lkkeys = {m: d for m, d in lkkeys.items() if any(mm == m for (mm, _n) in looks)}
+  m0 = {k: v for k, v in m0.items() if k in reach}
+  expected = {k: v for k, v in expected.items() if k in reach}
+  edges = core.coq_list(['(%s, %s, %s)' % (Z(o), Z(i), rel_lit(r)) for (o, i, r) in sub])
   inv_l = nested(inv, lambda d: nested(d, core.zlist))
   lkr_l = nested(lkrows, lambda d: nested(d, lambda ps: core.coq_list(['(%s, %s)' % (Z(a), Z(b)) for a, b in ps])))
   lkk_l = nested(lkkeys, lambda d: nested(d, core.zlist))
